@@ -2,6 +2,7 @@ import OxyModel.Proofs.Locks.Sound
 import OxyModel.Proofs.Locks.Counter
 import OxyModel.Proofs.Locks.Check
 import OxyModel.Proofs.Locks.Exec
+import OxyModel.Proofs.Locks.Update
 import OxyModel.Generated.LockFacts
 
 /-!
@@ -20,11 +21,22 @@ What is proved here:
     on threads, locks, length), if every access to `v` happens under one fixed lock `ℓ` (exclusively
     for writes), then any two conflicting accesses by different threads are separated by a release of
     `ℓ` by the first thread and a later acquisition by the second, i.e. ordered by happens-before.
-  * `C09_no_lost_update`: increments (load; store+1) performed under `ℓ:W` sum exactly, for every
-    interleaving.
+  * `C09_no_lost_update`: abstract half — a counter machine whose step function *enforces* "load and
+    store of one increment inside one exclusive critical section" never loses an increment.
+  * `C09_no_lost_update_general`: the same WITHOUT the discipline built into the semantics: plain memory
+    semantics on the lock executions; hypotheses `Guarded` and `AtomicUpdates` (each write is the store
+    of a read-modify-write whose load happened in the same critical section).
+  * `C09_updates_atomic`: on the regenerated facts no write site is a split update (value or guard taken
+    from a load of the variable in another critical section), and every counter variable (all write
+    sites one-statement read-modify-writes) has them under its lock held exclusively;
+    `C09_no_lost_update_facts`: hence executions that conform to the facts lose no update of a counter
+    variable.
   * `C09_discipline`: the lock facts REGENERATED from the repository's sources on every run satisfy that
     discipline for every shared variable (kernel-evaluated Boolean checker + soundness lemma).
   * `C09_race_free_partial`: the three together, for every execution that conforms to the facts.
+  * `C09_race_free_instances_partial`: the end-to-end statement for executions over lock / variable
+    *instances* (several breakers in one stack …): a class-level fact speaks about the lock instance of
+    the object the accessed variable instance lives in.
 What is missing (hence partial): that the real executions of the Go program conform to the extracted
 facts (the translator, `/verif/harness/locks`, is trusted for that; exercised by `-race` stress runs),
 and Go's memory model for `sync` (assumed as the `step` semantics).
@@ -59,6 +71,15 @@ theorem C09_no_lost_update (es : List CEv) (s : CS) (h : crun true CS.init es = 
   have := (crun_count es CS.init s h cinv_init).2
   simpa [CS.init] using this
 
+/-- **No lost update, discipline not built in.** Plain memory semantics (`vrun`: a read loads into the
+    thread's register, a write stores register+1; lost updates are expressible, see the example below).
+    If all accesses to `v` hold `ℓ` (exclusively for writes) and every write is the store of a
+    read-modify-write whose load happened earlier in the same critical section of `ℓ`, then the final value
+    is exactly the number of updates — for every well-formed interleaving. -/
+theorem C09_no_lost_update_general (es : List Ev) (ℓ v : Nat) (hwf : WellFormed es) (hg : Guarded ℓ v es)
+    (ha : AtomicUpdates ℓ v es) : (vrun v VS.init es).mem = writesTo v es :=
+  no_lost_update_general ℓ v es hwf hg ha
+
 /-- **Discipline of the repository** (regenerated facts): every shared variable has one fixed lock that
     is held at every access site, exclusively at every write site. -/
 theorem C09_discipline : ∀ v ∈ sharedVars, Disciplined Generated.facts v := by
@@ -74,7 +95,69 @@ theorem C09_race_free_partial (es : List Ev) (hwf : WellFormed es) (hc : Conform
   obtain ⟨ℓ, hd⟩ := C09_discipline v hv
   exact C09_no_race es ℓ v hwf (conforms_guarded hc hd)
 
+/-- **Update sites of the repository** (regenerated facts): no write site is a split update, and every
+    counter variable has all its write sites as one-statement read-modify-writes under one fixed lock
+    held exclusively. -/
+theorem C09_updates_atomic :
+    (∀ f ∈ Generated.facts, f.kind ≠ 3) ∧
+    ∀ v ∈ Generated.counterVars, ∃ ℓ, DisciplinedBy Generated.facts v ℓ ∧ UpdatesAtomicBy Generated.facts v ℓ := by
+  refine ⟨noSplitB_sound (by decide +kernel), ?_⟩
+  intro v hv
+  have hall : (Generated.counterVars.all fun v => isCounterB Generated.facts v) = true := by decide +kernel
+  rw [List.all_eq_true] at hall
+  obtain ⟨ℓ, hd⟩ := checkAll_sound (gs := Generated.groups) (by decide +kernel) v
+  exact ⟨ℓ, hd, updatesAtomic_of hd (isCounterB_sound (hall v hv))⟩
+
+/-- PARTIAL: executions that are admitted by the lock semantics and behave as the generated facts say
+    (`Conforms` for the locks held at each access, `ConformsU` for the shape of update sites) lose no
+    update of any counter variable.  Missing for the full property: the same two trusted links as for
+    `C09_race_free_partial`; variables that are also reset by plain stores (e.g. `RollingCounter.values`)
+    are covered by the first half of `C09_updates_atomic` and by the stress totals only. -/
+theorem C09_no_lost_update_facts (es : List Ev) (hwf : WellFormed es) (hc : Conforms Generated.facts es)
+    (hu : ConformsU Generated.facts es) :
+    ∀ v ∈ Generated.counterVars, (vrun v VS.init es).mem = writesTo v es := by
+  intro v hv
+  obtain ⟨ℓ, hd, ha⟩ := C09_updates_atomic.2 v hv
+  exact C09_no_lost_update_general es ℓ v hwf (conforms_guarded hc hd) (conformsU_atomic hwf hu ha)
+
+/-- PARTIAL, instance level: `es` ranges over lock and variable *instances* (two breakers in a stack hold
+    two different mutexes of the same class at once — such an execution is well-formed here).  `vcls v` is
+    the class (fact variable) of instance `v`, `obj v` the object it lives in, `lockOf o c` the instance of
+    lock class `c` of object `o`; helper objects belong to the object that owns them. -/
+theorem C09_race_free_instances_partial (es : List Ev) (vcls obj : Nat → Nat) (lockOf : Nat → Nat → Nat)
+    (hwf : WellFormed es) (hc : ConformsI Generated.facts vcls obj lockOf es) :
+    ∀ v, vcls v ∈ sharedVars → ¬ Race es v := by
+  intro v hv
+  obtain ⟨c, hd⟩ := C09_discipline (vcls v) hv
+  exact C09_no_race es (lockOf (obj v) c) v hwf (conformsI_guarded hc hd)
+
 /-! ## Non-vacuity -/
+
+/-- the generated sample execution is well-formed and conforms to the generated table -/
+example : WellFormed Generated.exampleExec := wf_of_isSome (by decide +kernel)
+example : Conforms Generated.facts Generated.exampleExec := conforms_of_check (by decide +kernel)
+example : (Generated.exampleExec.any fun e => match e with | .acc _ _ _ => true | _ => false) = true := by decide +kernel
+
+/-- two instances of lock class 0 (instances 10 and 20) held exclusively at the same time by two threads:
+    well-formed at instance level -/
+example : WellFormed [.acq 1 10 true, .acq 2 20 true, .acc 1 100 true, .acc 2 200 true, .rel 2 20 true, .rel 1 10 true] :=
+  wf_of_isSome (by decide)
+
+/-- plain memory semantics does lose updates when the read-modify-write is split over two critical
+    sections although every access holds the lock … -/
+def exSplit : List Ev :=
+  [.acq 1 0 true, .acc 1 7 false, .rel 1 0 true, .acq 2 0 true, .acc 2 7 false, .rel 2 0 true,
+   .acq 1 0 true, .acc 1 7 true, .rel 1 0 true, .acq 2 0 true, .acc 2 7 true, .rel 2 0 true]
+example : WellFormed exSplit := wf_of_isSome (by decide)
+example : Guarded 0 7 exSplit := guarded_of_check (by decide)
+example : (vrun 7 VS.init exSplit).mem = 1 ∧ writesTo 7 exSplit = 2 := by decide
+
+/-- … and not when each update stays inside one section (hypotheses of the general theorem hold) -/
+def exAtomic : List Ev :=
+  [.acq 1 0 true, .acc 1 7 false, .acc 1 7 true, .rel 1 0 true, .acq 2 0 true, .acc 2 7 false, .acc 2 7 true, .rel 2 0 true]
+example : (vrun 7 VS.init exAtomic).mem = 2 ∧ writesTo 7 exAtomic = 2 := by decide
+example : 0 < Generated.counterVars.length := by decide +kernel
+
 
 /-- two threads, a write each and a read, under lock 0 (one reader section): hypotheses hold -/
 def exOk : List Ev :=
@@ -117,9 +200,9 @@ example : (crun true CS.init [.ld 1, .ld 2, .st 1, .st 2]).isNone = true := by d
 example : Generated.groups.length = Generated.numVars ∧ 0 < Generated.numVars ∧
     Generated.facts.length = Generated.numFacts ∧ 0 < Generated.numFacts := by decide +kernel
 example : (Generated.groups.all fun g => !g.isEmpty) = true ∧ (Generated.facts.any fun f => f.write) = true := by decide +kernel
-example : checkGroups 0 [[⟨0, true, [], "a.go:1"⟩, ⟨0, false, [(0, true)], "a.go:2"⟩]] = false := by decide
-example : checkGroups 0 [[⟨0, true, [(0, false)], "a.go:1"⟩, ⟨0, false, [(0, false)], "a.go:2"⟩]] = false := by decide
-example : checkGroups 0 [[⟨0, true, [(3, true), (5, true)], "a.go:1"⟩, ⟨0, false, [(5, false)], "a.go:2"⟩]] = true := by decide
-example : checkVar [⟨0, true, [(3, true), (5, true)], "a.go:1"⟩, ⟨1, true, [], "b.go:1"⟩, ⟨0, false, [(5, false)], "a.go:2"⟩] 0 = some 5 := by decide
+example : checkGroups 0 [[⟨0, true, 2, [], "a.go:1"⟩, ⟨0, false, 0, [(0, true)], "a.go:2"⟩]] = false := by decide
+example : checkGroups 0 [[⟨0, true, 1, [(0, false)], "a.go:1"⟩, ⟨0, false, 0, [(0, false)], "a.go:2"⟩]] = false := by decide
+example : checkGroups 0 [[⟨0, true, 1, [(3, true), (5, true)], "a.go:1"⟩, ⟨0, false, 0, [(5, false)], "a.go:2"⟩]] = true := by decide
+example : checkVar [⟨0, true, 1, [(3, true), (5, true)], "a.go:1"⟩, ⟨1, true, 2, [], "b.go:1"⟩, ⟨0, false, 0, [(5, false)], "a.go:2"⟩] 0 = some 5 := by decide
 
 end C09
